@@ -984,7 +984,7 @@ class EstimateBodyCoilImage(DirectTransform):
         kspace_shape = tuple(sample["kspace"].shape[-3:])
         acs_mask = self.mask_func(shape=kspace_shape, seed=seed, return_acs=True)
 
-        kspace = acs_mask * kspace + 0.0
+        kspace = T.apply_mask(kspace, acs_mask, return_mask=False)
         dim = self.spatial_dims.TWO_D if kspace.ndim == 4 else self.spatial_dims.THREE_D
         acs_image = self.backward_operator(kspace, dim=dim)
 
@@ -1102,14 +1102,14 @@ class EstimateSensitivityMapModule(DirectModule):
             )
 
         if self.gaussian_sigma == 0 or not self.gaussian_sigma:
-            kspace_acs = kspace_data * sample["acs_mask"] + 0.0  # + 0.0 removes the sign of zeros.
+            kspace_acs = T.apply_mask(kspace_data, sample["acs_mask"], return_mask=False)
         else:
             gaussian_mask = torch.linspace(-1, 1, kspace_data.size(width_dim), dtype=kspace_data.dtype)
             gaussian_mask = torch.exp(-((gaussian_mask / self.gaussian_sigma) ** 2))
             gaussian_mask_shape = torch.ones(len(kspace_data.shape)).int()
             gaussian_mask_shape[width_dim] = kspace_data.size(width_dim)
             gaussian_mask = gaussian_mask.reshape(tuple(gaussian_mask_shape))
-            kspace_acs = kspace_data * sample["acs_mask"] * gaussian_mask + 0.0
+            kspace_acs = T.apply_mask(kspace_data, sample["acs_mask"], return_mask=False) * gaussian_mask
 
         # Get complex-valued data solution
         # Shape (batch, [slice/time], coil, height, width, complex=2)
